@@ -48,6 +48,9 @@ class ZONEINFO(TZProvider):
         except ValueError:
             # ValueError: ZoneInfo keys may not be absolute paths, got: /Europe/CUSTOM
             pass
+        except OSError:
+            # e.g. IsADirectoryError for "America", OSError for over-long names
+            pass
 
     def knows_timezone_id(self, id: str) -> bool:
         """Whether the timezone is already cached by the implementation."""
